@@ -387,3 +387,8 @@ def loop_of_elem(f, elem):
                 if inner:
                     return min(inner, key=lambda L_: len(L_['body']))['header']
     return None
+
+
+def closures_of(db, f):
+    """Closure bodies defined directly inside f (their own closures are reached recursively by the callers that need them)."""
+    return [c for c in db.fns.values() if c.kind == 'Closure' and c.raw.get('iparent') == f.path]
